@@ -266,7 +266,7 @@ class Ctx:
                     single = {}
                 fid = self._attribute(op, py, single)
             if fid is None and trigger_findings is not None:
-                fid = trigger_findings(extra, op, py, spec)
+                fid = trigger_findings(extra + (' py_equals_impl' if py == impl else ''), op, py, spec)
             if fid is not None:
                 self.known_hit(fid, {'op': op, 'impl': py, 'spec': spec})
             else:
